@@ -177,7 +177,33 @@ def run_for_property(prop):
     if vs and summary['detected'] == 0:
         errors.append('no seeded variant of %s could be applied and '
                       'detected (all stale?)' % prop)
+    # silence on an equivalent program: every local renamed, layout lost
+    fa = false_alarms_under_renaming(prop)
+    summary['alpha_renamed_tree'] = {'false_alarms': fa}
+    for m in fa:
+        errors.append('false alarm on the alpha-renamed tree: ' + m)
     return {'summary': summary, 'errors': errors}
+
+
+def false_alarms_under_renaming(prop):
+    import check
+    from selftest import alpha_variant
+    from pwsa.report import _load_json, KNOWN_PATH, REVIEWED_PATH, loose_key
+    ov = alpha_variant.overlay(model.REPO)
+    rep = check.run_property(prop, 'quick', overlay=ov)
+    known = [e['key'] for e in _load_json(KNOWN_PATH, {}).get('findings', [])
+             if e.get('property') == prop]
+    rev = [e['key'] for e in _load_json(REVIEWED_PATH, {}).get('entries', [])
+           if e.get('property') == prop]
+    ok = set(known) | set(rev) | {loose_key(k) for k in known + rev}
+    out = []
+    for rr in rep.rules:
+        for f in rr.findings:
+            if f.key in ok or loose_key(f.key) in ok:
+                continue
+            out.append(f.key[:160])
+    out += ['ANALYSIS-ERROR ' + m[:160] for m in rep.analysis_errors]
+    return out
 
 
 if __name__ == '__main__':
